@@ -453,10 +453,6 @@ def oracle(case, impl):
             nreq = 0
             a = adv.setdefault(i, {"m": None, "x": None})
             for item in opname[3:].split("/"):
-                if item.startswith("M2.0."):
-                    nreq += 1
-                if went_deaf and nreq >= 2:
-                    break      # the rest of the batch was never read (reported as read-suspended-forever)
                 if item.startswith("H"):
                     for f in item[1:].split(","):
                         if len(f) >= 2 and f[0] in "mx":
